@@ -202,7 +202,9 @@ pub fn generate(ctx: &mut Ctx, rep: &mut Report, emit: &mut dyn FnMut(&mut Ctx, 
                     let bytes = match rng.below(8) {
                         0 => { let k = rng.below(40) as usize; rng.bytes(k) }
                         1 => vec![],
-                        2 | 3 => { let mut b = gen_bundle(&mut rng, &Opts { wf: true, max_blocks: 4 }); let v = b.to_cbor(); crate::p_rx::mutate(&mut rng, &v) }
+                        2 => { let mut b = gen_bundle(&mut rng, &Opts { wf: true, max_blocks: 4 }); let v = b.to_cbor(); crate::p_rx::mutate(&mut rng, &v) }
+                        // the outer array in definite-length form, announcing the true, a boundary or an absurd number of blocks
+                        3 => { let mut b = gen_valid_bundle(&mut rng); let v = b.to_cbor(); crate::p_rx::outer_definite(&mut rng, &v) }
                         _ => { let mut b = gen_valid_bundle(&mut rng);
                                // an endpoint ID with a NUL byte is valid on the wire but cannot be a C string
                                if rng.chance(1, 8) { nul_bundle = true; let e = bp7::EndpointID::with_dtn(if rng.chance(1, 2) { "a\0b/x" } else { "n/\0" }).unwrap();
